@@ -103,7 +103,9 @@ CHECKS["C07"] = dict(
          "definition_lists_enabled_elements_and_metadata, disabled_property_gets_no_definition; constructible_emitted_message_reads_back (C03 applied). "
          "the_answer_for_a_disabled_property_reads_back: the delProperty answering for a disabled property is constructible and is read back "
          "unchanged by the parser, for every device and property and whatever their names (no hypothesis on the message). "
-         "PARTIAL: that every emitted DEFINITION is constructible (wfb over the live registry) is evaluated by the model for every emitted message on "
+         "the_definition_of_a_switch_property_reads_back: the definition of an enabled switch property (elements hold switch values; state, "
+         "permission, rule are protocol words) is constructible and read back, whatever names, labels, group and timeout are. "
+         "PARTIAL: that every emitted DEFINITION of the other kinds is constructible (wfb over the live registry) is evaluated by the model for every emitted message on "
          "every run, not yet proved for all reachable states. Correspondence: generated Driver class hierarchies (inheritance depth <= 3) on a real "
          "Router with a recording client, histories of driver operations and client writes, then getProperties for existing / disabled / unknown / "
          "absent names and devices; traces and final states compared, every emitted message round-tripped through the library's own parser.",
